@@ -76,3 +76,95 @@ pub fn block_inline<T>(fut: impl std::future::Future<Output = T>) -> T {
     }
     panic!("block_inline: future did not complete (scene setup must not block)");
 }
+
+// ------------------------------------------------------------------ harness stream
+
+use std::{
+    collections::VecDeque,
+    sync::{Arc, Mutex},
+    task::{Context as TaskCx, Poll, Waker},
+};
+
+#[derive(Default)]
+pub struct StreamState {
+    queue: VecDeque<u32>,
+    closed: bool,
+    waker: Option<Waker>,
+    pub yielded: u32,
+}
+
+/// A stream of `Item`s under harness control: ready exactly when something was fed.
+#[derive(Clone, Default)]
+pub struct HStream(pub Arc<Mutex<StreamState>>);
+
+impl HStream {
+    pub fn feed(&self, id: u32) {
+        let mut s = self.0.lock().unwrap();
+        s.queue.push_back(id);
+        if let Some(w) = s.waker.take() {
+            w.wake();
+        }
+    }
+    pub fn close(&self) {
+        let mut s = self.0.lock().unwrap();
+        s.closed = true;
+        if let Some(w) = s.waker.take() {
+            w.wake();
+        }
+    }
+}
+
+impl futures::Stream for HStream {
+    type Item = crate::world::Item;
+    fn poll_next(self: std::pin::Pin<&mut Self>, cx: &mut TaskCx<'_>) -> Poll<Option<Self::Item>> {
+        let mut s = self.0.lock().unwrap();
+        if let Some(x) = s.queue.pop_front() {
+            s.yielded += 1;
+            Poll::Ready(Some(crate::world::Item(x)))
+        } else if s.closed {
+            Poll::Ready(None)
+        } else {
+            s.waker = Some(cx.waker().clone());
+            Poll::Pending
+        }
+    }
+}
+
+thread_local! {
+    /// the stream of the current scene, for the Feed / CloseStream client operations
+    pub static STREAM: std::cell::RefCell<Option<HStream>> = const { std::cell::RefCell::new(None) };
+}
+
+#[derive(Clone, Copy, Debug, PartialEq, Eq)]
+pub enum StreamVia {
+    SpawnOnStream,
+    BuildOnStream,
+    BoundedOnStream(usize),
+    SpawnOwningOnStream,
+}
+
+/// Spawns a stream-attached probe; `prefill` items are ready at once, `close` ends the stream
+/// after them.
+pub fn spawn_probe_on_stream(role: u8, via: StreamVia, prefill: &[u32], close: bool) -> OwningOrAddr {
+    use hannibal::prelude::*;
+    let st = HStream::default();
+    for &i in prefill {
+        st.feed(i);
+    }
+    if close {
+        st.close();
+    }
+    STREAM.with(|s| *s.borrow_mut() = Some(st.clone()));
+    let probe = Probe::<0>::new(role);
+    match via {
+        StreamVia::SpawnOnStream => OwningOrAddr::Addr(probe.spawn_on_stream(st).expect("spawn_on_stream")),
+        StreamVia::SpawnOwningOnStream => OwningOrAddr::Own(probe.spawn_owning_on_stream(st).expect("spawn_owning_on_stream")),
+        StreamVia::BuildOnStream => OwningOrAddr::Own(hannibal::build(probe).on_stream(st).spawn_owning()),
+        StreamVia::BoundedOnStream(n) => OwningOrAddr::Own(hannibal::build(probe).bounded_on_stream(n, st).spawn_owning()),
+    }
+}
+
+pub enum OwningOrAddr {
+    Own(OwningAddr<P>),
+    Addr(hannibal::Addr<P>),
+}
